@@ -14,8 +14,8 @@
 (*   cdial{ok} cret{res} cwrite{cls} creply{cls} peof   connection 1, seen from the harness   *)
 (*                         proxy between the client's connection and the listener             *)
 (*   cclose                the client closed connection 1                                     *)
-(*   sread{i,hello} sreply{i} cread{cls}   (TCP only) what the recording connections returned *)
-(*                         by the harness' wrapping listener / connector saw: the handler's   *)
+(*   sread{i,hello} sreply{i} cread{cls}   (TCP only) seen by the recording connections that  *)
+(*                         the harness' wrapping listener / connector hand out: the handler's  *)
 (*                         first Read, its Write of the greeting, the client's first Read     *)
 (*   act{tunnel}           the ACT line the client wrote (its "tunnel" field)                 *)
 (*   sact{tunnel}          recvAction returned on the server (action.TunnelConnected)         *)
